@@ -160,6 +160,10 @@ pub fn expected_formula(f: &Formula, home: u32, op: &Op) -> Expect {
                 let exempt = (*kind == 1 && rowwise) || (*kind == 2 && !rowwise);
                 let (l1, l2) = if rowwise { (*r1, *r2) } else { (*c1, *c2) };
                 let (m1, m2) = if exempt { (Some(l1), Some(l2)) } else { (op.map_line(l1), op.map_line(l2)) };
+                if exempt {
+                    // an all-rows / all-columns range covers the deleted band whatever its other extent
+                    if let Op::DelRows(..) | Op::DelCols(..) = *op { e.reads_deleted = true; }
+                }
                 if !exempt {
                     if op.is_move() && (op.region(l1) != op.region(l2)) { e.unspecified = true; }
                     if let Op::DelRows(at, k) | Op::DelCols(at, k) = *op { if l1 < at + k && l2 >= at { e.reads_deleted = true; } }
@@ -241,7 +245,7 @@ pub fn dump_sheet(m: &Model, sh: u32) -> SheetDump {
                 Cell::CellFormula { .. } | Cell::ArrayFormula { .. } => (
                     "formula",
                     m.get_cell_formula(sh, *r, *c).unwrap().unwrap_or_default(),
-                    format!("{:?}:{}", cell.get_type(), m.get_formatted_cell_value(sh, *r, *c).unwrap_or_default()),
+                    format!("{:?}:{}:{}", cell.get_type(), m.get_formatted_cell_value(sh, *r, *c).unwrap_or_default(), display),
                 ),
                 Cell::SpillCell { .. } => ("spill", String::new(), m.get_formatted_cell_value(sh, *r, *c).unwrap_or_default()),
             };
@@ -267,6 +271,20 @@ pub fn dump_sheet(m: &Model, sh: u32) -> SheetDump {
     d
 }
 pub fn dump(m: &Model) -> Vec<SheetDump> { vec![dump_sheet(m, 0), dump_sheet(m, 1)] }
+
+/// formula cells whose value changes when the untouched workbook is merely evaluated once
+/// more (an evaluation-order matter, property C07): no edit can be blamed for their changes
+pub fn reevaluation_unstable(m: &mut Model, before: &[SheetDump]) -> BTreeSet<(u32, i32, i32)> {
+    m.evaluate();
+    let again = dump(m);
+    let mut out = BTreeSet::new();
+    for sh in 0..2usize {
+        for (p, c) in &before[sh].cells {
+            if again[sh].cells.get(p).map(|x| &x.value) != Some(&c.value) { out.insert((sh as u32, p.0, p.1)); }
+        }
+    }
+    out
+}
 
 // ------------------------------------------------------------------------------------------
 // the engine's own answer to "what does typing this text produce" (C18's question), on a
@@ -331,8 +349,8 @@ pub fn gen_book(rng: &mut Rng, edge_refs: bool) -> Book {
         } else { (rng.range(1, 12) as i32, rng.range(1, 9) as i32) };
         Tok::Ref { sh, r, c, ar: rng.chance(1, 3), ac: rng.chance(1, 3) }
     };
-    let gen_rng = |rng: &mut Rng, sh: u32| -> Tok {
-        let kind = if rng.chance(1, 6) { 1 } else if rng.chance(1, 6) { 2 } else { 0 };
+    let gen_rng = |rng: &mut Rng, sh: u32, full_ok: bool| -> Tok {
+        let kind = if !full_ok { 0 } else if rng.chance(1, 5) { 1 } else if rng.chance(1, 5) { 2 } else { 0 };
         let (mut r1, mut r2) = (rng.range(1, 12) as i32, rng.range(1, 12) as i32);
         let (mut c1, mut c2) = (rng.range(1, 9) as i32, rng.range(1, 9) as i32);
         if r1 > r2 { std::mem::swap(&mut r1, &mut r2); }
@@ -348,12 +366,12 @@ pub fn gen_book(rng: &mut Rng, edge_refs: bool) -> Book {
         match rng.below(9) {
             0 => Formula { toks: vec![gen_ref(rng, sh, edge)], pos_dep: false, blank_sens: false },
             1 => Formula { toks: vec![gen_ref(rng, sh, edge), Tok::S("+"), gen_ref(rng, home, false)], pos_dep: false, blank_sens: false },
-            2 | 3 => Formula { toks: vec![Tok::S("SUM("), gen_rng(rng, sh), Tok::S(")")], pos_dep: false, blank_sens: false },
-            4 => Formula { toks: vec![gen_ref(rng, sh, false), Tok::S("*2+SUM("), gen_rng(rng, sh), Tok::S(")")], pos_dep: false, blank_sens: false },
+            2 | 3 => Formula { toks: vec![Tok::S("SUM("), gen_rng(rng, sh, true), Tok::S(")")], pos_dep: false, blank_sens: false },
+            4 => Formula { toks: vec![gen_ref(rng, sh, false), Tok::S("*2+SUM("), gen_rng(rng, sh, false), Tok::S(")")], pos_dep: false, blank_sens: false },
             5 => Formula { toks: vec![Tok::S("ROW()+COLUMN()+"), gen_ref(rng, sh, false)], pos_dep: true, blank_sens: false },
-            6 => Formula { toks: vec![Tok::S("COUNTBLANK("), gen_rng(rng, sh), Tok::S(")")], pos_dep: false, blank_sens: true },
+            6 => Formula { toks: vec![Tok::S("COUNTBLANK("), gen_rng(rng, sh, false), Tok::S(")")], pos_dep: false, blank_sens: true },
             7 => Formula { toks: vec![Tok::S("IF("), gen_ref(rng, sh, false), Tok::S(">0,1,2)")], pos_dep: false, blank_sens: false },
-            _ => Formula { toks: vec![Tok::S("COUNT("), gen_rng(rng, sh), Tok::S(")+COUNTA("), gen_rng(rng, sh), Tok::S(")")], pos_dep: false, blank_sens: false },
+            _ => Formula { toks: vec![Tok::S("COUNT("), gen_rng(rng, sh, false), Tok::S(")+COUNTA("), gen_rng(rng, sh, false), Tok::S(")")], pos_dep: false, blank_sens: false },
         }
     };
     for r in 1..=h {
@@ -434,7 +452,7 @@ pub fn book_json(bk: &Book) -> serde_json::Value {
 
 // ------------------------------------------------------------------------------------------
 // oracles
-pub struct Ctx<'a> { pub prop: &'a str, pub case: u64, pub entry: &'a str, pub op_text: String, pub book: &'a Book }
+pub struct Ctx<'a> { pub prop: &'a str, pub case: u64, pub entry: &'a str, pub op_text: String, pub book: &'a Book, pub flaky: &'a BTreeSet<(u32, i32, i32)> }
 impl Ctx<'_> {
     fn input(&self, extra: serde_json::Value) -> serde_json::Value {
         json!({"case": self.case, "entry": self.entry, "op": self.op_text, "at": extra, "workbook": book_json(self.book)})
@@ -467,7 +485,7 @@ fn may_change(bk: &Book, op: &Op) -> BTreeSet<(u32, i32, i32)> {
 
 /// 0 = reads nothing doubtful, 1 = reads (transitively) a cell that may legitimately change,
 /// 2 = reads a re-typed cell that typing does not reproduce
-fn taint(bk: &Book, start: (u32, i32, i32), legit: &BTreeSet<(u32, i32, i32)>, bad: &BTreeSet<(i32, i32)>) -> u8 {
+fn taint(bk: &Book, before: &[SheetDump], start: (u32, i32, i32), legit: &BTreeSet<(u32, i32, i32)>, bad: &BTreeSet<(i32, i32)>) -> u8 {
     let mut seen = BTreeSet::new();
     let mut todo = vec![start];
     let mut res = 0;
@@ -475,10 +493,49 @@ fn taint(bk: &Book, start: (u32, i32, i32), legit: &BTreeSet<(u32, i32, i32)>, b
         if !seen.insert(x) { continue; }
         if legit.contains(&x) { return 1; }
         if x.0 == 0 && bad.contains(&(x.1, x.2)) && x != start { res = 2; }
+        // 3 = reads (or is) a COUNT-family formula over a blank-forwarding formula (F43)
+        if res == 0 && counts_blank_forwarding_cell(bk, before, x) { res = 3; }
         if let Some(f) = bk.forms.get(&x) { for y in reads(f) { todo.push(y); } }
     }
     res
 }
+
+/// F43 (an evaluator matter, C07): a formula that is a bare reference to an empty cell yields
+/// "blank" when it is evaluated on demand and 0 once cached, so COUNT/COUNTA/COUNTBLANK over it
+/// depend on the evaluation order, which any relocation of cells changes
+fn counts_blank_forwarding_cell(bk: &Book, before: &[SheetDump], k: (u32, i32, i32)) -> bool {
+    let f = match bk.forms.get(&k) { Some(f) => f, None => return false };
+    if !f.toks.iter().any(|t| matches!(t, Tok::S(x) if x.contains("COUNT"))) { return false; }
+    reads(f).iter().any(|x| match bk.forms.get(x) {
+        Some(g) if g.toks.len() == 1 => match &g.toks[0] {
+            Tok::Ref { sh, r, c, .. } => before[*sh as usize].cells.get(&(*r, *c)).map(|c| c.kind == "empty").unwrap_or(true),
+            _ => false,
+        },
+        _ => false,
+    })
+}
+
+/// F45 (evaluator, C07): does `start` read (transitively) a cell that lies on a reference cycle?
+/// Which members of / readers of a cycle show #CIRC! depends on the evaluation order.
+fn reads_a_cycle(bk: &Book, start: (u32, i32, i32)) -> bool {
+    let reach = |from: (u32, i32, i32)| -> BTreeSet<(u32, i32, i32)> {
+        let mut seen = BTreeSet::new();
+        let mut todo: Vec<(u32, i32, i32)> = bk.forms.get(&from).map(reads).unwrap_or_default();
+        while let Some(x) = todo.pop() {
+            if !seen.insert(x) { continue; }
+            if let Some(f) = bk.forms.get(&x) { for y in reads(f) { todo.push(y); } }
+        }
+        seen
+    };
+    let r = reach(start);
+    if r.contains(&start) { return true; }
+    r.iter().filter(|x| bk.forms.contains_key(x)).any(|x| reach(*x).contains(x))
+}
+fn circ_class(bk: &Book, k: (u32, i32, i32), v1: &str, v2: &str) -> bool {
+    (v1.contains("#CIRC!") != v2.contains("#CIRC!")) && reads_a_cycle(bk, k)
+}
+
+fn both_errors(a: &str, b: &str) -> bool { a.starts_with("ErrorValue:") && b.starts_with("ErrorValue:") }
 
 fn literal_class(c: &CellDump, unstable: bool) -> &'static str {
     if unstable && c.kind == "string" && c.quote_prefix { "retyped_quote_prefixed_text_changes_type" }
@@ -487,13 +544,37 @@ fn literal_class(c: &CellDump, unstable: bool) -> &'static str {
     else { "cell_content" }
 }
 
+/// F42: move_cell of a style-only cell types "" into its target, and typing "" removes the link
+/// found there — a link that belongs to another cell and has not been shifted yet (insert /
+/// delete), or the cell's own, already shifted link (band of a move). `q` = original place of
+/// the lost link.
+fn cleared_by_empty_cell(before: &SheetDump, op: &Op, q: (i32, i32), both_ways: bool) -> bool {
+    let line = |p: (i32, i32)| if op.rowwise() { p.0 } else { p.1 };
+    let other = |p: (i32, i32)| if op.rowwise() { p.1 } else { p.0 };
+    before.cells.iter().any(|(p, c)| {
+        if c.kind != "empty" || !op.retyped(*p) || other(*p) != other(q) { return false; }
+        match *op {
+            Op::InsRows(_, k) | Op::InsCols(_, k) => line(*p) + k == line(q) || (both_ways && line(*p) - k == line(q)),
+            Op::DelRows(_, k) | Op::DelCols(_, k) => line(*p) - k == line(q),
+            Op::MoveRows(..) | Op::MoveCols(..) => *p == q || (line(*p) - line(q)).abs() == 1,
+        }
+    })
+}
+
 /// C12 / C13 / C15: every cell, link and descriptor at its mapped place; formulas rewritten as
 /// the statement says; qualifying formulas keep their values
 #[allow(clippy::too_many_arguments)]
 pub fn check_relocation(before: &[SheetDump], after: &[SheetDump], op: &Op, ctx: &Ctx, scratch: &mut Scratch, or: &mut Oracle, st: &mut Stats) {
     let (unstable, autolink) = unstable_cells(before, op, scratch);
     let bk = ctx.book;
-    let legit = may_change(bk, op);
+    let mut legit = may_change(bk, op);
+    legit.extend(ctx.flaky.iter().cloned());
+    if std::env::var("VH_DEBUG").map(|v| v == ctx.case.to_string()).unwrap_or(false) {
+        for sh in 0..2usize {
+            for (p, c) in &before[sh].cells { eprintln!("BEFORE sheet {sh} {:?}: {} {:?} {:?}", p, c.kind, c.content, c.value); }
+            for (p, c) in &after[sh].cells { eprintln!("AFTER  sheet {sh} {:?}: {} {:?} {:?}", p, c.kind, c.content, c.value); }
+        }
+    }
     for sh in 0..2u32 {
         let (b, a) = (&before[sh as usize], &after[sh as usize]);
         let mut image = BTreeSet::new();
@@ -519,11 +600,18 @@ pub fn check_relocation(before: &[SheetDump], after: &[SheetDump], op: &Op, ctx:
                                         else if e.row_overflow { "row_overflow_other" } else { "formula_text" };
                             or.fail(class, ctx.input(json!([sh, p.0, p.1])), format!("formula {:?} at {:?}: expected {:?} at {:?}, found {:?}", c.content, p, e.text, p2, c2.content));
                         }
-                        let tn = taint(bk, (sh, p.0, p.1), &legit, &unstable);
+                        let tn = taint(bk, before, (sh, p.0, p.1), &legit, &unstable);
                         if tn != 1 {
                             st.bump("formula_value_checked");
-                            if c.value != c2.value {
-                                let class = if tn == 2 { "value_of_formula_reading_a_retyped_unstable_cell" } else { "formula_value" };
+                            if c.value != c2.value && op.is_move() && both_errors(&c.value, &c2.value) && f.toks.iter().any(|t| matches!(t, Tok::Rng { .. })) {
+                                // which error of a range comes first depends on the order of its cells
+                                st.bump("skipped_first_error_of_a_permuted_range");
+                            } else if c.value != c2.value {
+                                let class = if tn == 2 { "value_of_formula_reading_a_retyped_unstable_cell" }
+                                            else if tn == 3 { "count_over_formula_forwarding_a_blank_depends_on_evaluation_order" }
+                                else if circ_class(bk, (sh, p.0, p.1), &c.value, &c2.value) { "circularity_marking_depends_on_evaluation_order" }
+                                            else if circ_class(bk, (sh, p.0, p.1), &c.value, &c2.value) { "circularity_marking_depends_on_evaluation_order" }
+                                            else { "formula_value" };
                                 or.fail(class, ctx.input(json!([sh, p.0, p.1])), format!("formula {:?} at {:?}: value {:?} -> {:?}", c.content, p, c.value, c2.value));
                             }
                         }
@@ -548,18 +636,21 @@ pub fn check_relocation(before: &[SheetDump], after: &[SheetDump], op: &Op, ctx:
             let p2 = if sh == 0 { match op.cell_map(*p) { Some(x) => x, None => continue } } else { *p };
             limage.insert(p2, (*p, l.clone()));
         }
-        let any_autolink_moved = sh == 0 && !autolink.is_empty();
+        // an auto-linking re-typed cell in the same column (row operations) / row (column operations)
+        let other = |p: (i32, i32)| if op.rowwise() { p.1 } else { p.0 };
+        let near_autolink = |p: (i32, i32)| sh == 0 && autolink.iter().any(|q| other(*q) == other(p));
         for (p2, (p, l)) in &limage {
             or.checked += 1;
             if a.links.get(p2) != Some(l) {
-                let class = if any_autolink_moved { "link_of_retyped_autolinking_cell_duplicated" } else { "cell_link" };
+                let class = if sh == 0 && a.links.get(p2).is_none() && cleared_by_empty_cell(b, op, *p, false) { "link_cleared_by_retyped_style_only_cell" }
+                            else if near_autolink(*p) { "link_of_retyped_autolinking_cell_duplicated" } else { "cell_link" };
                 or.fail(class, ctx.input(json!([sh, p.0, p.1])), format!("link {:?} of {:?} expected at {:?}, found {:?}", l, p, p2, a.links.get(p2)));
             }
         }
         for (p2, l2) in &a.links {
             if !limage.contains_key(p2) {
                 // the duplicate sits where the moved cell's own link is shifted a second time
-                let dup = autolink.iter().any(|p| op.cell_map(*p).and_then(|x| op.cell_map(x)) == Some(*p2) || op.cell_map(*p) == Some(*p2));
+                let dup = near_autolink(*p2);
                 let class = if dup { "link_of_retyped_autolinking_cell_duplicated" } else { "extra_link" };
                 or.fail(class, ctx.input(json!([sh, p2.0, p2.1])), format!("link {:?} at {:?} is the image of no link", l2, p2));
             }
@@ -597,7 +688,15 @@ pub fn check_relocation(before: &[SheetDump], after: &[SheetDump], op: &Op, ctx:
 pub fn check_identity(before: &[SheetDump], after: &[SheetDump], op: &Op, ctx: &Ctx, scratch: &mut Scratch, or: &mut Oracle, st: &mut Stats) {
     let (unstable, autolink) = unstable_cells(before, op, scratch);
     let bk = ctx.book;
-    let legit: BTreeSet<(u32, i32, i32)> = bk.forms.iter().filter(|(k, f)| { let e = expected_formula(f, k.0, op); e.has_ref_error || e.unspecified }).map(|(k, _)| *k).collect();
+    if std::env::var("VH_DEBUG").map(|v| v == ctx.case.to_string()).unwrap_or(false) {
+        for sh in 0..2usize {
+            let keys: BTreeSet<_> = before[sh].cells.keys().chain(after[sh].cells.keys()).cloned().collect();
+            for p in keys { if before[sh].cells.get(&p) != after[sh].cells.get(&p) { eprintln!("DIFF sheet {sh} {:?}: {:?} -> {:?}", p, before[sh].cells.get(&p), after[sh].cells.get(&p)); } }
+        }
+        eprintln!("inputs {:?}", bk.inputs);
+    }
+    let mut legit: BTreeSet<(u32, i32, i32)> = bk.forms.iter().filter(|(k, f)| { let e = expected_formula(f, k.0, op); e.has_ref_error || e.unspecified }).map(|(k, _)| *k).collect();
+    legit.extend(ctx.flaky.iter().cloned());
     for sh in 0..2u32 {
         let (b, a) = (&before[sh as usize], &after[sh as usize]);
         let keys: BTreeSet<_> = b.cells.keys().chain(a.cells.keys()).cloned().collect();
@@ -616,9 +715,12 @@ pub fn check_identity(before: &[SheetDump], after: &[SheetDump], op: &Op, ctx: &
                 if c.content != c2.content {
                     or.fail("formula_text", ctx.input(json!([sh, p.0, p.1])), format!("formula at {:?}: {:?} -> {:?}", p, c.content, c2.content));
                 } else if c.value != c2.value {
-                    let tn = taint(bk, (sh, p.0, p.1), &legit, &unstable);
+                    let tn = taint(bk, before, (sh, p.0, p.1), &legit, &unstable);
                     if tn == 1 { st.bump("skipped_reads_pushed_off_grid"); continue; }
-                    let class = if tn == 2 { "value_of_formula_reading_a_retyped_unstable_cell" } else { "formula_value" };
+                    let class = if tn == 2 { "value_of_formula_reading_a_retyped_unstable_cell" }
+                                else if tn == 3 { "count_over_formula_forwarding_a_blank_depends_on_evaluation_order" }
+                                else if circ_class(bk, (sh, p.0, p.1), &c.value, &c2.value) { "circularity_marking_depends_on_evaluation_order" }
+                                else { "formula_value" };
                     or.fail(class, ctx.input(json!([sh, p.0, p.1])), format!("formula {:?} at {:?}: value {:?} -> {:?}", c.content, p, c.value, c2.value));
                 } else {
                     or.fail("cell_style", ctx.input(json!([sh, p.0, p.1])), format!("formula cell {:?} style {} -> {}", p, c.style, c2.style));
@@ -631,9 +733,15 @@ pub fn check_identity(before: &[SheetDump], after: &[SheetDump], op: &Op, ctx: &
             }
         }
         if a.links != b.links {
-            or.checked += 1;
-            let class = if sh == 0 && !autolink.is_empty() { "link_of_retyped_autolinking_cell_duplicated" } else { "cell_link" };
-            or.fail(class, ctx.input(json!([sh])), format!("links {:?} -> {:?}", b.links, a.links));
+            let other = |p: (i32, i32)| if op.rowwise() { p.1 } else { p.0 };
+            let changed: BTreeSet<(i32, i32)> = b.links.keys().chain(a.links.keys()).filter(|k| a.links.get(k) != b.links.get(k)).cloned().collect();
+            for p in changed {
+                or.checked += 1;
+                let class = if sh == 0 && a.links.get(&p).is_none() && cleared_by_empty_cell(b, op, p, true) { "link_cleared_by_retyped_style_only_cell" }
+                            else if sh == 0 && autolink.iter().any(|q| other(*q) == other(p)) { "link_of_retyped_autolinking_cell_duplicated" }
+                            else { "cell_link" };
+                or.fail(class, ctx.input(json!([sh, p.0, p.1])), format!("link at {:?}: {:?} -> {:?}", p, b.links.get(&p), a.links.get(&p)));
+            }
         }
         if a.rows != b.rows { or.fail("row_descriptor", ctx.input(json!([sh])), format!("rows {:?} -> {:?}", b.rows, a.rows)); }
         if a.cols != b.cols {
